@@ -174,7 +174,7 @@ def roundtrip(kind, n, full):
     return body
 
 
-INNER_WS = (" ", "  ", "\n", "\t", " \n ")
+INNER_WS = (" ", "  ", "\n", "\t", " \n ", "\n \n", "\n\t\n  ")   # incl. inner lines made of blanks only
 
 
 def inner_whitespace(kind):
@@ -215,7 +215,7 @@ def conditions(tier):
     for k in ("SetTextVector", "DefTextVector", "NewTextVector", "SetBLOBVector"):
         out.append(Condition(f"inner-ws/{k}", make_condition(inner_whitespace(k), 14, 3, 3),
                              about=f"{k}: text with inner blanks / newline / tab between two words (markup characters included)",
-                             encodes=ENC, bounds="text = word + (one of 5 white-space runs) + word", timeout=600))
+                             encodes=ENC, bounds="text = word + (one of 7 white-space runs) + word", timeout=600))
     for k in PLAIN_KINDS:
         out.append(Condition(f"roundtrip/{k}", make_condition(roundtrip(k, 0, thorough), 8, 4, 3),
                              about=f"{k}: to_xml, wire, from_xml, to_xml", encodes=ENC,
